@@ -1,14 +1,15 @@
-(** Model of the control-request bookkeeping of internal/agent/agent.go
+(** PRE-FIX model (kept for the refutation lemmas only; before fix commit 9611840).
+    Model of the control-request bookkeeping of internal/agent/agent.go
     (SendControlRequestWithData, handleControlRequest, handleControlResponse)
-    for property C39, following the code after fix commit 9611840.  Request
-    ids are the agent's own counter 1,2,3,...; a forwarded request travels on
-    under an id taken from the forwarding agent's own counter (the same one
-    that numbers its own requests); [forwardedControl] maps that id to the
-    source peer and the id the requester used. *)
+    for property C39.  Request ids are the agent's own counter 1,2,3,...;
+    [pendingControl] and [forwardedControl] are keyed by the BARE request id. *)
 From Coq Require Import List NArith Bool.
 From MM Require Import Model.Relay.
 Import ListNotations.
 Local Open Scope N_scope.
+
+Module PreFix.
+
 
 Inductive cmsg :=
 | MReq (id target : N) (path : list N) (tag : N)
@@ -25,7 +26,7 @@ Record cstate := mkcstate {
   c_conns : list N;       (* connected peers *)
   c_failing : list N;     (* peers towards which a write fails *)
   c_pending : list N;     (* pendingControl: ids of requests this agent originated *)
-  c_fwd : amap (N * N);   (* forwardedControl: our id -> (source peer, requester's id) *)
+  c_fwd : amap N;         (* forwardedControl: id -> source peer *)
   c_next : N;             (* nextControlID *)
 }.
 
@@ -58,11 +59,10 @@ Definition cstep (s : cstate) (e : cevent) : cstate * list (N * cmsg) * list (N 
         | Some h =>
             if negb (memN h (c_conns s)) then (s, cemit s from (MResp id false code_not_connected), [], 0)
             else
-              (* nextControlID++; forwardedControl[fwdID] = (source, id) *)
-              let fid := c_next s + 1 in
-              let s1 := mkcstate (c_me s) (c_conns s) (c_failing s) (c_pending s) (mset fid (from, id) (c_fwd s)) fid in
-              if csend_ok s1 h then (s1, [(h, MReq fid target rest tag)], [], 0)
-              else (mkcstate (c_me s) (c_conns s) (c_failing s) (c_pending s) (mdel fid (c_fwd s1)) fid,
+              (* forwardedControl[id] = source (overwriting) *)
+              let s1 := mkcstate (c_me s) (c_conns s) (c_failing s) (c_pending s) (mset id from (c_fwd s)) (c_next s) in
+              if csend_ok s1 h then (s1, [(h, MReq id target rest tag)], [], 0)
+              else (mkcstate (c_me s) (c_conns s) (c_failing s) (c_pending s) (mdel id (c_fwd s1)) (c_next s),
                     cemit s from (MResp id false code_forward_failed), [], 0)
         end
   | CResp from id tag =>
@@ -71,7 +71,7 @@ Definition cstep (s : cstate) (e : cevent) : cstate * list (N * cmsg) * list (N 
       let s1 := mkcstate (c_me s) (c_conns s) (c_failing s) (delN id (c_pending s)) (mdel id (c_fwd s)) (c_next s) in
       if hasP then (s1, [], [(id, tag)], 0)
       else match f with
-           | Some (src, oid) => (s1, cemit s1 src (MResp oid true tag), [], 0)   (* the requester's id is restored *)
+           | Some src => (s1, cemit s1 src (MResp id true tag), [], 0)
            | None => (s1, [], [], 0)
            end
   | COriginate target tag =>
@@ -97,48 +97,5 @@ Fixpoint crun (s : cstate) (evs : list cevent) : cstate * list (list (N * cmsg) 
       let '(s2, os) := crun s1 r in (s2, (o, d) :: os)
   end.
 
-(* ---- comparison ---------------------------------------------------------- *)
 
-Fixpoint insN (x : N) (l : list N) : list N :=
-  match l with [] => [x] | y :: t => if x <=? y then x :: l else y :: insN x t end.
-Definition sortN (l : list N) : list N := fold_right insN [] l.
-
-Record cobs := mkcobs {
-  co_out : list (N * cmsg);
-  co_deliv : list (N * N);
-  co_id : N;
-  co_pending : list N;        (* sorted *)
-  co_fwd : list (N * (N * N)); (* sorted by id: our id -> (source peer, requester's id) *)
-  co_next : N;
-}.
-
-Definition cmsg_eqb (a b : cmsg) : bool :=
-  match a, b with
-  | MReq i t p g, MReq i' t' p' g' => (i =? i') && (t =? t') && list_eqb N.eqb p p' && (g =? g')
-  | MResp i o g, MResp i' o' g' => (i =? i') && Bool.eqb o o' && (g =? g')
-  | _, _ => false
-  end.
-
-Definition pairN_eqb (a b : N * N) : bool := (fst a =? fst b) && (snd a =? snd b).
-
-Definition cobs_ok (s : cstate) (o : list (N * cmsg)) (d : list (N * N)) (id : N) (ob : cobs) : bool :=
-  list_eqb (fun x y => (fst x =? fst y) && cmsg_eqb (snd x) (snd y)) (co_out ob) o &&
-  list_eqb pairN_eqb (co_deliv ob) d && (co_id ob =? id) &&
-  list_eqb N.eqb (co_pending ob) (sortN (c_pending s)) &&
-  list_eqb (fun x y => (fst x =? fst y) && pairN_eqb (snd x) (snd y)) (co_fwd ob) (sorted (c_fwd s)) && (co_next ob =? c_next s).
-
-Definition ccase := (N * list (cevent * cobs))%type.
-
-Fixpoint ccase_ok_from (s : cstate) (c : list (cevent * cobs)) : bool :=
-  match c with
-  | [] => true
-  | (e, ob) :: r => let '(s', o, d, id) := cstep s e in cobs_ok s' o d id ob && ccase_ok_from s' r
-  end.
-Definition ccase_ok (c : ccase) : bool := ccase_ok_from (cinit (fst c)) (snd c).
-
-Fixpoint cmismatches_from (i : N) (cs : list ccase) : list N :=
-  match cs with
-  | [] => []
-  | c :: cs' => if ccase_ok c then cmismatches_from (i + 1) cs' else i :: cmismatches_from (i + 1) cs'
-  end.
-Definition mismatches (cs : list ccase) : list N := cmismatches_from 0 cs.
+End PreFix.
